@@ -11,6 +11,8 @@ Line-protocol driver for C04 (all numbers decimal, hashes/bytes hex; float64 val
   CS hash stake threshold total [P:k:v ...]     -> same, p = pOf threshold total (first field after `ok j` block: p)
   M seedhex role index                          -> hex of MakeM
   P hash j                                      -> hex of computePriority (real Keccak-256)
+  SP verdict                                    -> accept|refuse|crash                        Server.verifyPriority given VrfVerifyPriority's verdict
+  SS nodeRound nodeIndex msgRound msgIndex verdict -> accept|refuse|crash                     Server.verifySortition given VrfVerifySortition's verdict
   VS total threshold stake sub (ok:hash|err) [P:k:v ...]            -> verdict | need …
   VP total threshold stake sub (ok:hash|err) priority [P:k:v ...]   -> verdict | need …
 -/
@@ -59,6 +61,13 @@ def hashNat? (s : String) : Option Nat := do
 def showVerdict : Verdict → String
   | .accept => "accept" | .totalStakeZero => "totalStakeZero" | .vrfFailed => "vrfFailed" | .notValidator => "notValidator"
   | .subUsersMismatch => "subUsersMismatch" | .priorityMismatch => "priorityMismatch" | .crash => "crash"
+
+def parseVerdict (s : String) : Option Verdict :=
+  [Verdict.accept, .totalStakeZero, .vrfFailed, .notValidator, .subUsersMismatch, .priorityMismatch, .crash].find?
+    (fun v => showVerdict v == s)
+
+def showNode : NodeVerdict → String
+  | .accept => "accept" | .refuse => "refuse" | .crash => "crash"
 
 def parseVrf (s : String) : Option (Option (List UInt8)) :=
   if s == "err" then some none
@@ -113,6 +122,14 @@ def step (_ : Unit) (line : String) : Unit × String :=
     | "CS" :: h :: w :: thr :: tot :: es =>
       match hashNat? h, w.toNat?, thr.toNat?, tot.toNat?, es.mapM parseEntry with
       | some hb, some w, some thr, some tot, some t => chooseLine t hb w (pOf thr tot)
+      | _, _, _, _, _ => "bad-op"
+    | ["SP", v] =>
+      match parseVerdict v with
+      | some v => showNode (nodePriorityOutcome v)
+      | none => "bad-op"
+    | ["SS", cr, ci, mr, mi, v] =>
+      match cr.toNat?, ci.toNat?, mr.toNat?, mi.toNat?, parseVerdict v with
+      | some cr, some ci, some mr, some mi, some v => showNode (nodeSortitionOutcome ⟨cr, ci⟩ mr mi v)
       | _, _, _, _, _ => "bad-op"
     | ["M", seed, role, index] =>
       match bytesOfHex? seed, role.toNat?, index.toNat? with
